@@ -291,7 +291,7 @@ Qed.
 Theorem holds : spec c (model c) = true.
 Proof.
   destruct wf_parts as (Hperm & _).
-  unfold spec, model. cbn [o_sys o_stage o_bin_sys o_bin_stage]. rewrite lres_beq_refl, andb_true_r.
+  unfold spec, model. cbn [o_sys o_stage o_bin_sys o_bin_stage o_bin_stage2]. rewrite !lres_beq_refl, !andb_true_r.
   match goal with |- ?a && ?a && ?b && ?b = true => assert (G : a = true /\ b = true);
     [|destruct G as [-> ->]; reflexivity] end.
   destruct sys_cases as [[E AP]|(u2 & E & U2 & AP & RQ & ND)]; rewrite E.
